@@ -322,6 +322,9 @@ type CR3 struct {
 	PrevH   int
 	// offsets of size/count fields (layout map for structure-aware flips)
 	Map []FieldSpan
+	// containment table: [start,end) of the boxes that enclose the callback payloads
+	Moov, Canon, XMPBox, PrevUUID, PRVW Span
+	CMTBox                              [4]Span
 }
 
 type Span struct {
@@ -336,6 +339,7 @@ type CR3Opts struct {
 	Preview  []byte
 	Surround bool // random extra boxes inside moov / the Canon uuid / after the standard ones
 	Use64    bool // allow 64-bit box headers
+	TopExtra bool // unknown/free boxes between any two top-level boxes (also right after ftyp)
 	Tail     int  // 0: mdat last (as cameras write it); 1: no mdat (the last metadata box ends the stream); 2: mdat before the xpacket/preview uuid boxes
 }
 
@@ -364,7 +368,7 @@ func DrawCR3(l *core.Lane, o CR3Opts) *CR3 {
 		ctbo = append(ctbo, be32(uint32(l.Intn(1<<20)))...)
 	}
 	inner = append(inner, Box("CTBO", ctbo)...)
-	type cmtPos struct{ idx, rel int }
+	type cmtPos struct{ idx, rel, hdr int }
 	var cmtRel []cmtPos
 	for i := 0; i < 4; i++ {
 		if o.Surround && l.Chance(1, 4) {
@@ -376,10 +380,10 @@ func DrawCR3(l *core.Lane, o CR3Opts) *CR3 {
 		use64 := o.Use64 && l.Chance(1, 4)
 		typ := "CMT" + string(rune('1'+i))
 		if use64 {
-			cmtRel = append(cmtRel, cmtPos{i, len(inner) + 16})
+			cmtRel = append(cmtRel, cmtPos{i, len(inner) + 16, 16})
 			inner = append(inner, Box64(typ, o.CMT[i])...)
 		} else {
-			cmtRel = append(cmtRel, cmtPos{i, len(inner) + 8})
+			cmtRel = append(cmtRel, cmtPos{i, len(inner) + 8, 8})
 			inner = append(inner, Box(typ, o.CMT[i])...)
 		}
 	}
@@ -406,14 +410,34 @@ func DrawCR3(l *core.Lane, o CR3Opts) *CR3 {
 	ftyp := Box("ftyp", []byte("crx "), be32(1), []byte("crx isom"))
 	out := append([]byte(nil), ftyp...)
 	c.Top = append(c.Top, Span{"ftyp", 0, len(out)})
+	topExtra := func() {
+		if !o.TopExtra {
+			return
+		}
+		n := l.Intn(3)
+		for i := 0; i < n; i++ {
+			s := len(out)
+			if l.Chance(1, 4) {
+				out = append(out, Box64([]string{"free", "skip", "zzzz"}[l.Intn(3)], ScreenTIFF(l.Sub().Bytes(l.Intn(120))))...)
+			} else {
+				out = append(out, randBox(l)...)
+			}
+			c.Top = append(c.Top, Span{"extra", s, len(out)})
+		}
+	}
+	topExtra()
 	moovStart := len(out)
 	out = append(out, Box("moov", moov)...)
 	c.Top = append(c.Top, Span{"moov", moovStart, len(out)})
+	c.Moov = Span{"moov", moovStart, len(out)}
+	c.Canon = Span{"uuid-canon", moovStart + 8 + preMoov, moovStart + 8 + preMoov + len(canon)}
+	topExtra()
 	c.Map = append(c.Map, FieldSpan{"moov.size", moovStart, 4}, FieldSpan{"canon.size", moovStart + 8 + preMoov, 4})
 	canonPayload := moovStart + 8 + preMoov + 8 + 16
 	for _, cp := range cmtRel {
 		c.CMTOff[cp.idx] = canonPayload + cp.rel
 		c.Map = append(c.Map, FieldSpan{"cmt.size", canonPayload + cp.rel - 8, 4})
+		c.CMTBox[cp.idx] = Span{"cmt", canonPayload + cp.rel - cp.hdr, canonPayload + cp.rel + len(o.CMT[cp.idx])}
 	}
 	mdat := func() {
 		s := len(out)
@@ -429,6 +453,8 @@ func DrawCR3(l *core.Lane, o CR3Opts) *CR3 {
 		out = append(out, Box("uuid", uuidXPacket, o.XMP)...)
 		c.XMPOff = s + 24
 		c.Top = append(c.Top, Span{"uuid-xmp", s, len(out)})
+		c.XMPBox = Span{"uuid-xmp", s, len(out)}
+		topExtra()
 		c.Map = append(c.Map, FieldSpan{"xmp.size", s, 4})
 	}
 	// --- uuid preview
@@ -439,6 +465,9 @@ func DrawCR3(l *core.Lane, o CR3Opts) *CR3 {
 		out = append(out, Box("uuid", uuidPreview, be32(0), be32(1), prvw)...)
 		c.PrevOff = s + 8 + 16 + 8 + 24
 		c.Top = append(c.Top, Span{"uuid-prvw", s, len(out)})
+		c.PrevUUID = Span{"uuid-prvw", s, len(out)}
+		c.PRVW = Span{"PRVW", s + 32, len(out)}
+		topExtra()
 		c.Map = append(c.Map, FieldSpan{"prvwuuid.size", s, 4}, FieldSpan{"prvw.size", s + 32, 4}, FieldSpan{"prvw.jpegsize", s + 32 + 20, 4})
 	}
 	if o.Surround && l.Bool() {
